@@ -605,7 +605,7 @@ def run(res, tier):
                     run_impl=run_impl, to_case=to_case, oracle=oracle,
                     corr_name="DiskcrashModel (writes, rebuild, hit) vs the running squid",
                     n_quick=18, n_thorough=600, seed_salt=16, model_blind=model_blind,
-                    kind_fn=kind_fn, nontrivial_fn=lambda s, o: " | " in o)
+                    kind_fn=kind_fn, nontrivial_fn=lambda s, o: " | " in o, retries=1)
     finally:
         _state.clear()
 
